@@ -27,7 +27,7 @@ theorem cmp_correct (fo : FOps) (ctx : Ctx) (op : CmpOp) (l r : Value) (x y : Ex
     evalCmp fo .fixed ctx op l r = some (mathCmp op x y) := by
   cases ctx <;> cases op <;>
     first
-    | (simp [evalCmp, CmpOp.toBinOp, binop, patternBinop, saseCmp, mathCmp,
+    | (simp [evalCmp, CmpOp.toBinOp, binop, patternBinop, saseCmp, mathCmp, cmpValsExpr_num _ l r x y hl hr,
         cmpVals_fixed _ l r x y hl hr, saseCompare_fixed l r x y hl hr]; done)
     | (simp [patternGap] at hgap
        simp [evalCmp, CmpOp.toBinOp, patternBinop, mathCmp, cmpValsSameKind_exact _ l r x y hl hr hgap])
@@ -78,9 +78,24 @@ theorem where_keeps_iff (fo : FOps) (env : Env) (op : CmpOp) (l r : Expr) (lv rv
       keeps (eval fo .fixed env (.bin op.toBinOp l r)) = mathCmp op x y := by
   have h : eval fo .fixed env (.bin op.toBinOp l r) = .val (.bool (mathCmp op x y)) := by
     cases op <;>
-      simp [eval, hl, hr, Res.bind, CmpOp.toBinOp, binop, mathCmp, cmpVals_fixed _ lv rv x y hx hy]
+      simp [eval, hl, hr, Res.bind, CmpOp.toBinOp, binop, mathCmp, cmpValsExpr_num _ lv rv x y hx hy,
+        cmpVals_fixed _ lv rv x y hx hy]
   refine ⟨h, ?_⟩
   rw [h]; cases mathCmp op x y <;> rfl
+
+/-- The `.pattern` context on whole lambda bodies (`eval_pattern_expr`, model `evalPat`): if the two
+sides evaluate to numbers, the comparison is the mathematical one (outside the known gap). -/
+theorem pattern_expr_cmp_correct (fo : FOps) (vars : List (String × Value)) (op : CmpOp) (l r : Expr)
+    (lv rv : Value) (x y : Ext)
+    (hl : evalPat fo .fixed vars l = .val lv) (hr : evalPat fo .fixed vars r = .val rv)
+    (hx : numExt lv = some x) (hy : numExt rv = some y) (hgap : patternGap .pattern op lv rv = false) :
+    evalPat fo .fixed vars (.bin op.toBinOp l r) = .val (.bool (mathCmp op x y)) := by
+  cases op <;>
+    first
+    | (simp [evalPat, hl, hr, Res.bind, CmpOp.toBinOp, patternBinop, mathCmp, cmpVals_fixed _ lv rv x y hx hy]; done)
+    | (simp [patternGap] at hgap
+       simp [evalPat, hl, hr, Res.bind, CmpOp.toBinOp, patternBinop, mathCmp,
+         cmpValsSameKind_exact _ lv rv x y hx hy hgap])
 
 /-- The order used is a genuine order on the denoted numbers: reflexive-equal, antisymmetric,
 so `>`/`<` and `>=`/`<=` are mirror images. -/
@@ -109,10 +124,10 @@ theorem cmp_int_float_exact (a : Int64) (b : F) (y : Ext) (hb : b.ext = some y) 
     cmpIntFloat a b = some (Ext.cmp (intExt a) y) := cmpIntFloat_exact a b y hb
 
 /-- NaN is not a number: every ordering comparison with it is false (not "no value"). -/
-theorem nan_compares_false (fo : FOps) (op : CmpOp) (a : Int64) :
-    evalCmp fo .fixed .expr op (.int a) (.float .nan) = some false ∧
-      evalCmp fo .fixed .expr op (.float .nan) (.int a) = some false := by
-  cases op <;> simp [evalCmp, CmpOp.toBinOp, binop, cmpVals, cmpIntFloat_nan, CmpOp.holds]
+theorem nan_compares_false (fo : FOps) (op : CmpOp) (a : Int64) (s : Bool) :
+    evalCmp fo .fixed .expr op (.int a) (.float (.nan s)) = some false ∧
+      evalCmp fo .fixed .expr op (.float (.nan s)) (.int a) = some false := by
+  cases op <;> simp [evalCmp, CmpOp.toBinOp, binop, cmpValsExpr, cmpVals, cmpIntFloat_nan, CmpOp.holds]
 
 /-! ### the two defects of the unchanged tree (repaired by the `fix:` commits) -/
 
@@ -122,8 +137,8 @@ theorem old_ge_mixed_has_no_value (fo : FOps) :
     evalCmp fo .old .expr .ge (.float (.fin false 63 (-1))) (.int 30) = none ∧
       evalCmp fo .old .expr .gt (.float (.fin false 63 (-1))) (.int 30) = some true ∧
       evalCmp fo .fixed .expr .ge (.float (.fin false 63 (-1))) (.int 30) = some true := by
-  refine ⟨by simp [evalCmp, CmpOp.toBinOp, binop, cmpVals], ?_, ?_⟩
-  · simp only [evalCmp, CmpOp.toBinOp, binop, cmpVals]; decide
+  refine ⟨by simp [evalCmp, CmpOp.toBinOp, binop, cmpValsExpr, cmpVals], ?_, ?_⟩
+  · simp only [evalCmp, CmpOp.toBinOp, binop, cmpValsExpr, cmpVals]; decide
   · rw [cmp_correct fo .expr .ge _ _ (.fin ⟨63, -1⟩) (intExt 30) (by simp [numExt, F.ext, F.snum]) rfl rfl]
     decide
 
@@ -135,7 +150,7 @@ theorem old_cast_is_not_the_order (fo : FOps) :
       evalCmp fo .fixed .expr .gt (.int 9007199254740993) (.float (.fin false 1 53)) = some true := by
   have h : F.ofI64 9007199254740993 = .fin false 4503599627370496 1 := by decide
   refine ⟨h, ?_, ?_⟩
-  · simp only [evalCmp, CmpOp.toBinOp, binop, cmpVals, h]; decide
+  · simp only [evalCmp, CmpOp.toBinOp, binop, cmpValsExpr, cmpVals, h]; decide
   · rw [cmp_correct fo .expr .gt _ _ (intExt 9007199254740993) (.fin ⟨1, 53⟩) rfl
       (by simp [numExt, F.ext, F.snum]) rfl]
     decide
